@@ -13,7 +13,7 @@ for name in names:
     subprocess.run(["git", "-C", "/repo", "apply", os.path.join(d, "patch.diff")], check=True)
     try:
         t0 = time.time()
-        env = dict(os.environ, VERIF_REPLAYS_DIR="/verif/.work/seed-replays")
+        env = dict(os.environ, VERIF_REPLAYS_DIR="/verif/.work/seed-replays", VERIF_EVIDENCE_DIR="/verif/.work/seed-evidence")
         p = subprocess.run(["/verif/check", meta["property"], "quick"], cwd="/verif", env=env, stdout=subprocess.PIPE, stderr=subprocess.STDOUT)
         out = p.stdout.decode("utf-8", "replace")
         keys = sorted(set(l.split("key=")[1].split(" ")[0] for l in out.splitlines() if "failed: key=" in l))
